@@ -208,6 +208,9 @@ def zoo_check(n, tier, seed):
         rcode = san_replay(n, R, first, san_n, seed, cfg)
         if rcode == 2:
             return 2
+    if tier == "thorough" and n in (9, 17, 18) and not R.violations:
+        if valgrind_replay(n, R, seed, cfg) == 2:
+            return 2
     # 4. coverage-guided fuzzing (thorough)
     if tier == "thorough" and not R.violations:
         rcode = fuzz_campaign(n, R, seed, cfg, secs=int(os.environ.get("VF_FUZZ_SECS", "90")))
@@ -275,9 +278,50 @@ def san_replay(n, R, gcc_exe, count, seed, cfg):
     return 0
 
 
+def valgrind_replay(n, R, seed, cfg, count=3000):
+    """thorough tier, C09/C17/C18: memcheck over generated cases whose instances are constructed in genuinely uninitialised heap memory"""
+    P = pid(n)
+    od = vc.out_dir(P)
+    total = 0
+    for variant in ("shipped", "dev"):
+        exe = need_zoo(cfg.get("fs", ["ALL"])[0], variant, "gcc", R)
+        if not exe:
+            return 2
+        d = vc.fresh_dir(os.path.join(od, "vg-" + variant))
+        c = ["env", "RC_PARAMS=seed=%d max_success=%d max_size=30" % (seed * 17 + 3, count), exe, "emit", "--count", str(count), "--out", os.path.join(d, "all.bin"), "--dir", d, "--profile", cfg["profiles"][0]]
+        if cfg.get("cfgs"):
+            c += ["--cfgs", ",".join(str(x) for x in cfg["cfgs"])]
+        vc.run(c)
+        files = sorted(glob.glob(os.path.join(d, "seed-*.case")))
+        shards = [files[i::vc.NCPU] for i in range(vc.NCPU)]
+        cmds = [["valgrind", "-q", "--error-exitcode=9", "--track-origins=yes", exe, "replay", "--prop", str(n), "--quiet", "1", "--uninit", "1"] + s for s in shards if s]
+        outs = vc.parallel(cmds, timeout=3000)
+        for s, (rc, out) in zip([s for s in shards if s], outs):
+            total += len(s)
+            if rc == 9 or "Conditional jump or move depends on uninitialised" in out or "Invalid read" in out or "Invalid write" in out:
+                # locate one offending case
+                bad = None
+                for f in s:
+                    rc2, o2 = vc.run(["valgrind", "-q", "--error-exitcode=9", exe, "replay", "--prop", str(n), "--quiet", "1", "--uninit", "1", f], timeout=300)
+                    if rc2 == 9:
+                        bad = (f, o2)
+                        break
+                f, o2 = bad if bad else (s[0], out)
+                dest = os.path.join(od, "valgrind-%s.case" % variant)
+                shutil.copy(f, dest)
+                open(dest + ".log", "w").write(o2[-6000:])
+                R.violation(dest, "valgrind memcheck: use of an uninitialised value / invalid access on a machine constructed in uninitialised memory (%s header): %s" % (variant, first_report_line(o2 + "\n" + "\n".join(l for l in o2.splitlines() if l.startswith("==")))))
+                break
+            elif rc == 1 and "VIOLATION" in out:
+                R.inconclusive.append("predicate violation under valgrind (should have been found by the plain build): " + out[-300:])
+    R.coverage["engines"]["valgrind_memcheck(uninitialised heap placement)"] = {"evaluations": total}
+    R.coverage["evaluations"] += total
+    return 0
+
+
 def first_report_line(out):
     for l in out.splitlines():
-        if "runtime error:" in l or "ERROR: AddressSanitizer" in l or "SUMMARY:" in l:
+        if "runtime error:" in l or "ERROR: AddressSanitizer" in l or "SUMMARY:" in l or "uninitialised" in l or "Invalid read" in l or "Invalid write" in l:
             return l.strip()[:400]
     return out.strip().splitlines()[-1][:400] if out.strip() else "(no output)"
 
